@@ -228,7 +228,11 @@ def judge(ctx, outs, s, prefix=""):
         for k, i in enumerate(shape_cases, 1):
             want = exp.get(k, [])
             cases[i]["cols"] = want if outs[i]["shape"][1] == len(want) else [[0, -1]]
-    for v in ctx.judge("J_Assembly", cases, CLAUSES, consts=jc):
+    verdicts = []
+    for b0 in range(0, len(cases), 5000):   # judge in batches to bound TLC's memory and run time
+        for v in ctx.judge("J_Assembly", cases[b0:b0 + 5000], CLAUSES, consts=jc, tag=f"judge{b0}_{len(ctx.tlc_runs)}", timeout=1800):
+            verdicts.append(dict(v, case=b0 + v["case"]))
+    for v in verdicts:
         o = outs[v["case"] - 1]
         ctx.violation(v["clause"], dict(hist=o["hist"], sel=o["sel"], selall=o["selall"], vsel=o["vsel"], vselall=o["vselall"],
                                         mode=o["mode"], observed={k: o[k] for k in ("error", "rows", "cols", "rhs", "idx", "resonly")}),
@@ -244,8 +248,9 @@ def run(ctx):
                        "equation keys are passed as names and as Operator objects (alternating)"]
     recs, s = enumerate_cases(ctx)
     total = len(recs)
-    if ctx.quick and total > 1500:
-        idx = sorted(ctx.rng.sample(range(total), 1500))
+    cap = 1500 if ctx.quick else 30000
+    if total > cap:
+        idx = sorted(ctx.rng.sample(range(total), cap))
         recs = [recs[i] for i in idx]
     outs = []
     for i, c in enumerate(recs):
